@@ -85,6 +85,36 @@ def close(a, b, tol=1e-9, scale=1.0):
     return abs(a - b) <= tol * max(1.0, scale)
 
 
+def shrink_list(items, still_fails, max_steps=400):
+    """Delta-debugging on a list: returns a (locally) minimal sub-list on which `still_fails` holds.
+    `still_fails(list) -> bool` must be deterministic; exceptions count as 'does not fail'."""
+    items = list(items)
+    steps = 0
+
+    def bad(x):
+        try:
+            return bool(still_fails(x))
+        except Exception:
+            return False
+    n = 2
+    while len(items) >= 2 and steps < max_steps:
+        chunk = max(1, len(items) // n)
+        reduced = False
+        for i in range(0, len(items), chunk):
+            cand = items[:i] + items[i + chunk:]
+            steps += 1
+            if cand and bad(cand):
+                items = cand
+                n = max(n - 1, 2)
+                reduced = True
+                break
+        if not reduced:
+            if chunk == 1:
+                break
+            n = min(len(items), n * 2)
+    return items
+
+
 # ----------------------------------------------------------------------------------------------
 # Lean side
 
@@ -294,6 +324,13 @@ class Ctx:
             else:
                 good += 1
         self.discharged = (good + examples) if not hits else 0
+        if self.tier == 'thorough':
+            # independent re-check of the compiled module by the toolchain's own checker
+            rc, out = _run(['lake', 'env', 'leanchecker', 'HcipyVerif.Properties.' + self.id], cwd=LEAN_DIR)
+            self.extra['leanchecker'] = {'exit': rc, 'output': out[-500:]}
+            if rc != 0:
+                self.obligation_failures.append({'kind': 'leanchecker', 'detail': out[-1000:]})
+                self.discharged = 0
         return not self.obligation_failures
 
     # -- verdict
